@@ -29,6 +29,9 @@ pub enum Reader {
     /// cut must be that of ONE state of the parent (C10)
     Branch,
     Handoff,
+    /// auto compaction (stride 1, two new checkpoints): plans from the cut points, then appends a
+    /// job bracket and checkpoint frames (C09)
+    AutoCompaction,
 }
 
 #[derive(Clone, Copy, Debug, PartialEq, Eq, Hash)]
@@ -127,6 +130,7 @@ fn read(fx: &Fx, thread: &str, msgs: &[String], r: Reader) -> Value {
             Ok((child, seq, mid)) => json!({"ok": {"child": child, "cut_seq": seq, "cut_message_id": mid}}),
             Err(e) => json!({"err": e}),
         },
+        Reader::AutoCompaction => res(store.compaction_auto_v1(thread, ripd::CompactionAutoV1Request { stride_messages: Some(1), max_new_checkpoints: Some(2), dry_run: Some(false), actor_id: "u".into(), origin: "o".into() })),
         Reader::Handoff => match store.handoff(thread, None, (Some("racing".into()), None), None, None, ("u".into(), "o".into())) {
             Ok((child, seq, mid)) => json!({"ok": {"child": child, "cut_seq": seq, "cut_message_id": mid}}),
             Err(e) => json!({"err": e}),
@@ -404,6 +408,7 @@ pub fn worker(opts: Opts, prop: &'static str, level: &'static str, spec: &str) -
         let mut all = READERS_C04.to_vec();
         all.push(Reader::Branch);
         all.push(Reader::Handoff);
+        all.push(Reader::AutoCompaction);
         for k in 0..18 {
             all.push(Reader::Compile(k));
         }
